@@ -35,6 +35,8 @@ def run_pubscript(chk, pid, runner, tier, seed, workdir, log, only_key):
                                 "detail": "harness does not build against the current tree: " + log[-1][2][-1500:],
                                 "signature": "harness-build", "found_failing_input": False})
         return res
+    if only_key and only_key.startswith("stress:"):
+        return res
     out = os.path.join(workdir, "pubscript")
     args = ["-prop", pid, "-seed", str(seed), "-tier", tier]
     if only_key:
@@ -46,7 +48,7 @@ def run_pubscript(chk, pid, runner, tier, seed, workdir, log, only_key):
                                 "found_failing_input": True})
         return res
     verdicts, stats = chk.eval_cases(out, log)
-    cases = json.load(open(os.path.join(out, "cases.json")))
+    cases = json.load(open(os.path.join(out, "cases.json"))) or []
     res.update({"evaluations": stats["evaluations"], "distinct_nontrivial": stats["distinct_nontrivial"],
                 "histogram": stats["histogram"],
                 "rule": runner.get("rule", "") + " Scope this run: " + str(stats.get("scope", "")),
@@ -121,6 +123,11 @@ def run_pubstress(chk, pid, runner, tier, seed, workdir, log, only_key):
     out = os.path.join(workdir, "pubstress")
     mode = runner["mode"]
     args = ["-mode", mode, "-seed", str(seed), "-tier", tier]
+    if only_key:
+        parts = only_key.split(":")
+        if len(parts) < 3 or parts[1] != mode:
+            return res
+        args += ["-roundseed", parts[2]]
     e = dict(chk.env())
     e["GORACE"] = "halt_on_error=0 exitcode=0"
     import subprocess
